@@ -197,6 +197,16 @@ func DrawBundle(c *core.Ctx, maxEx int, withSigs bool) *LBundle {
 		if n > 30 && len(r.Body) > 300 {
 			r.Body = r.Body[:300]
 		}
+		if len(lb.Exchanges) > 0 && c.Chance("bundle.sameResponse", 1, 8) {
+			// the same representation served under another URL (status, headers and body identical)
+			prev := lb.Exchanges[c.Pick("bundle.sameAs", len(lb.Exchanges))]
+			if len(prev.Resp.Headers) == 0 || prev.Resp.Headers[len(prev.Resp.Headers)-1].Name != "Variant-Key" {
+				r = prev.Resp
+				r.Headers = append([]HV(nil), prev.Resp.Headers...)
+				r.Body = append([]byte(nil), prev.Resp.Body...)
+				c.Probe("identical response under two URLs")
+			}
+		}
 		lb.Exchanges = append(lb.Exchanges, LExchange{URL: u, Resp: r})
 		uniq++
 	}
@@ -250,6 +260,10 @@ func drawVariantSet(c *core.Ctx, lb *LBundle, u string, uniq *int) {
 		parts = append(parts, axisNames[a]+";"+strings.Join(axisVals[a][:nv], ";"))
 	}
 	variants := strings.Join(parts, ", ")
+	splitLines := c.Chance("var.repeatedFieldLines", 1, 4)
+	if splitLines {
+		c.Probe("variants: list-valued headers as repeated field lines")
+	}
 	// all possible keys in row-major order
 	keys := []string{""}
 	for a := 0; a < nax; a++ {
@@ -320,7 +334,18 @@ func drawVariantSet(c *core.Ctx, lb *LBundle, u string, uniq *int) {
 		r := DrawResp(c, "var.resp", *uniq)
 		*uniq++
 		r.DirectMap = false
-		r.Headers = append(r.Headers, HV{"Variants", variants}, HV{"Variant-Key", strings.Join(ks, ", ")})
+		if splitLines {
+			// the same list-valued fields given as repeated field lines (RFC 7230 3.2.2):
+			// their combined value is the comma-joined list
+			for _, part := range parts {
+				r.Headers = append(r.Headers, HV{"Variants", part})
+			}
+			for _, k := range ks {
+				r.Headers = append(r.Headers, HV{"Variant-Key", k})
+			}
+		} else {
+			r.Headers = append(r.Headers, HV{"Variants", variants}, HV{"Variant-Key", strings.Join(ks, ", ")})
+		}
 		idx := len(lb.Exchanges)
 		lb.Exchanges = append(lb.Exchanges, LExchange{URL: u, Resp: r})
 		for _, k := range e.keys {
